@@ -499,6 +499,7 @@ def run(ctx):
     if T:
         jobs.append(("x", "MC_asis3.cfg", "I => P, code as it is (open finding O12): all clauses but Order, Order only after a requeue", 6))
         jobs.append(("x", "MC_fixed3.cfg", "I => P, repaired design, 3 requests, 2 priorities: safety", 6))
+        jobs.append(("x", "MC_fixed2m.cfg", "I => P, repaired design, 2 requests of different priority, queue of 2 + shutdown: safety", 4))
         if os.environ.get("VERIF_C06_BIG"):
             jobs.append(("x", "MC_fixed3_big.cfg", "I => P, repaired design, 3 requests, 2-tick quota window, 4 ticks: safety", 8))
     for name in VARIANTS:
@@ -525,7 +526,7 @@ def run(ctx):
     names = list(VARIANTS)
     scs = [directed_scenario(n, VARIANTS[n][0], variants[n][0]) for n in names]
     # ---- (3) spec -> code: walks of the model of the code as it is, forced
-    nw = 24 if not T else 160
+    nw = 24 if not T else 300
     walks = []
     walkinst = []
     # normal operation with a 2-tick quota window (blocked attempts, requeues, expiry) / shutdown at any point (constants as in the cfgs)
@@ -547,12 +548,12 @@ def run(ctx):
     for i, wk in enumerate(walks):
         scs.append(directed_scenario("walk-%d" % i, walkinst[i], wk))
         names.append("walk-%d" % i)
-    nb = 6 if not T else 30
+    nb = 6 if not T else 40
     for k in range(nb):
         scs.append(burst_scenario(ctx.rng, k))
         names.append("burst-%d" % k)
     # ---- (4) code -> spec: free-running recordings
-    nr = 30 if not T else 200
+    nr = 30 if not T else 400
     for k in range(nr):
         scs.append(random_scenario(ctx.rng, k, T))
         names.append("random-%d" % k)
